@@ -77,7 +77,7 @@ def check(ctx):
     ou = mod.func("optimize_until")
     stages = []
     for n in ast.walk(ou):
-        if isinstance(n, ast.Compare) and unparse(n.left) == "stage" and isinstance(n.ops[0], ast.Eq):
+        if isinstance(n, ast.Compare) and eqv(n.left, "stage") and isinstance(n.ops[0], ast.Eq):
             stages.append(const(n.comparators[0]))
     callseq = []
     for c in calls(ou):
@@ -102,23 +102,23 @@ def check(ctx):
     red = ctx.model.klass("dask/dataframe/dask_expr/_reductions.py", "ApplyConcatApply")
     lowered = {call_name(c) for c in calls(red.own_methods["_lower"], None) if call_name(c) and call_name(c)[:1].isupper() and call_name(c) in ("TreeReduce", "ShuffleReduce")}
     want = {"ApplyConcatApply"} | lowered
-    guards = [n for n in ast.walk(cdp) if isinstance(n, ast.Call) and call_name(n) == "isinstance" and unparse(n.args[0]) == "e" and isinstance(n.args[1], ast.Tuple) and "ApplyConcatApply" in unparse(n.args[1])]
+    guards = [n for n in ast.walk(cdp) if isinstance(n, ast.Call) and call_name(n) == "isinstance" and eqv(n.args[0], "e") and isinstance(n.args[1], ast.Tuple) and "ApplyConcatApply" in unparse(n.args[1])]
     ok = len(guards) == 1
     got = set()
     if ok:
         got = {unparse(e) for e in guards[0].args[1].elts}
         st_ = enclosing_stmt(guards[0])
-        ok = want <= got and isinstance(st_, ast.If) and any(isinstance(b, ast.Return) and const(b.value) is False for b in st_.body) and any(unparse(e_) == "allow_reduction" and pol is False for e_, pol in cfg_of(cdp).facts(st_))
+        ok = want <= got and isinstance(st_, ast.If) and any(isinstance(b, ast.Return) and const(b.value) is False for b in st_.body) and any(eqv(e_, "allow_reduction") and pol is False for e_, pol in cfg_of(cdp).facts(st_))
     ctx.count("lowered_reduction_classes", len(lowered))
     ctx.floor("lowered_reduction_classes", 2, "classes ApplyConcatApply._lower constructs")
     ctx.ob("TAB.reduction-guard", cdp, f"filters are not merged across a reduction: the guard names ApplyConcatApply and what it lowers to {sorted(lowered)}", ok, "" if ok else f"guard covers {sorted(got)}, missing {sorted(want - got)}: after lowering, a reduction over a filtered frame is no longer recognised and the filter is squashed with an outer one (the reduction then sees unfiltered rows)")
     # ---------------- a scalar selection x['b'] and a list selection x[['b']] are different results
     pcp = ex_.func("plain_column_projection")
     # the comparison that guards `return result` (the rebuilt expression without the outer projection)
-    cmps = [st_.test for st_ in walk_no_nested(pcp) if isinstance(st_, ast.If) and isinstance(st_.test, ast.Compare) and "column_union" in unparse(st_.test.left) and any(isinstance(b, ast.Return) and unparse(b.value) == "result" for b in st_.body)]
-    ok = len(cmps) == 1 and unparse(cmps[0].left) == "column_union" and unparse(cmps[0].comparators[0]) == "parent.operand('columns')" and isinstance(cmps[0].ops[0], ast.Eq)
+    cmps = [st_.test for st_ in walk_no_nested(pcp) if isinstance(st_, ast.If) and isinstance(st_.test, ast.Compare) and "column_union" in unparse(st_.test.left) and any(isinstance(b, ast.Return) and eqv(b.value, "result") for b in st_.body)]
+    ok = len(cmps) == 1 and eqv(cmps[0].left, "column_union") and eqv(cmps[0].comparators[0], "parent.operand('columns')") and isinstance(cmps[0].ops[0], ast.Eq)
     ctx.ob("TYPE.projection-dimension", pcp, "the outer Projection is dropped only if column_union equals its RAW columns operand (scalar vs list decides Series vs DataFrame)", ok, "" if ok else f"compares with `{unparse(cmps[0].comparators[0]) if cmps else None}`: the normalised column list cannot tell x['b'] from x[['b']], so the projection that restores the dimension is dropped")
-    ok = any(unparse(r.value) == "type(parent)(result, parent.operand('columns'))" for r in returns(pcp))
+    ok = any(eqv(r.value, "type(parent)(result, parent.operand('columns'))") for r in returns(pcp))
     ctx.ob("TYPE.projection-dimension.rewrap", pcp, "otherwise the parent projection is re-applied with its raw operand", ok)
     from .C13 import no_operand_mutation
 
@@ -129,8 +129,8 @@ def check(ctx):
     distributive_rules(ctx)
     # ---------------- Assign squash: a key assigned twice keeps its first position (pandas), the later value wins
     rc_ = ctx.model.module("dask/dataframe/dask_expr/_expr.py").func("Assign._remove_common_columns")
-    br = [n for n in walk_no_nested(rc_) if isinstance(n, ast.If) and unparse(n.test) == "set(self.keys) & set(other.keys)"]
-    ok = len(br) == 1 and bool(find("operands = [[k, new.pop(k, v)] for (k, v) in zip(other.keys, other.vals)]", br[0])) and bool(find("new = dict(zip(self.keys, self.vals))", br[0])) and bool(find("operands.extend(([k, v] for (k, v) in new.items()))", br[0])) and any(unparse(r.value) == "[other.frame] + list(flatten(operands))" for r in returns(br[0]))
+    br = [n for n in walk_no_nested(rc_) if isinstance(n, ast.If) and eqv(n.test, "set(self.keys) & set(other.keys)")]
+    ok = len(br) == 1 and bool(find("operands = [[k, new.pop(k, v)] for (k, v) in zip(other.keys, other.vals)]", br[0])) and bool(find("new = dict(zip(self.keys, self.vals))", br[0])) and bool(find("operands.extend(([k, v] for (k, v) in new.items()))", br[0])) and any(eqv(r.value, "[other.frame] + list(flatten(operands))") for r in returns(br[0]))
     ctx.ob("ALG.assign-squash.order", rc_, "overlapping keys: other's keys stay in place with the later value substituted, remaining new keys are appended", ok, "" if ok else "the repeated key moves to the end: computed column order differs from the metadata and from pandas")
 
 
